@@ -46,7 +46,7 @@ def dense_case(cid, Phi, Psi, w, wc, wt, ft=True):
     return c
 
 
-def sparse_case(cid, Phi, A, w, wc, wt):
+def sparse_case(cid, Phi, A, w, wc, wt, rng=None):
     from skmatter.preprocessing import SparseKernelCenterer
     Phi, A = np.asarray(Phi, float), np.asarray(A, float)
     Knm, Kmm = Phi @ A.T, A @ A.T
@@ -57,9 +57,15 @@ def sparse_case(cid, Phi, A, w, wc, wt):
     try:
         with warnings.catch_warnings():
             warnings.simplefilter("ignore")
-            sk = SparseKernelCenterer(with_center=wc, with_trace=wt).fit(Knm.copy(), Kmm.copy(), sample_weight=sw)
-            T = sk.transform(Knm.copy())
-            Tft = SparseKernelCenterer(with_center=wc, with_trace=wt).fit_transform(Knm.copy(), Kmm.copy(), sample_weight=sw)
+            # the same features in other units (kernel values times cu^2) and a non-default relative cut-off: the centred
+            # Nystrom kernel is unit-free up to the factor converted back below; rcond is relative to the largest eigenvalue
+            cu = float(rng.choice([1.0, 1.0, 1e-3, 30.0])) if rng is not None else 1.0
+            rc = float(rng.choice([1e-12, 1e-12, 1e-4])) if rng is not None else 1e-12
+            back = cu if wt else cu * cu
+            sk = SparseKernelCenterer(with_center=wc, with_trace=wt, rcond=rc).fit(Knm * cu * cu, Kmm * cu * cu, sample_weight=sw)
+            T = sk.transform(Knm * cu * cu) / back
+            Tft = SparseKernelCenterer(with_center=wc, with_trace=wt, rcond=rc).fit_transform(Knm * cu * cu, Kmm * cu * cu, sample_weight=sw) / back
+            c["units"] = [cu, rc]
         c["P"] = q(np.linalg.pinv(Kmm, 1e-12), S)       # witness, verified by the specification
         if not np.all(np.isfinite(T)) or not np.all(np.isfinite(Tft)):
             # a vanishing Nystrom trace makes the implementation divide by zero; whether the trace of the INPUT vanishes is
@@ -93,7 +99,7 @@ def gen(args):
         else:
             m = int(rng.integers(1, 6))
             A = Phi[rng.choice(nn, size=min(m, nn), replace=False)] if rng.random() < 0.6 else rng.integers(-2, 3, size=(m, d))
-            c = sparse_case("w%d-%d" % (wid, t), Phi, A, w, wc, wt)
+            c = sparse_case("w%d-%d" % (wid, t), Phi, A, w, wc, wt, rng)
             if c is not None:
                 out.append(c)
     return out
